@@ -109,20 +109,52 @@ def do_case(ctx, inp):
                 check2d(ctx, method, [s[i] for s in m], rt[i], f"3-D axis 1 slice {i}")
 
 
+def sparse_matrix(rng):
+    """2-D arrays with up to 6 rows over a small alphabet, with all-zero rows and rows that are completely overridden by
+    later rows placed between used rows, so that level boundaries with equal magnitudes on both sides occur"""
+    nr, nc = rng.randint(2, 6), rng.randint(2, 6)
+    vals = rng.choice([[0, 0, 1, -1, 2, -2], [0, 1, 2], [0, 0, 0, 1, -1, 2, 3], [0, 2, -2, 2]])
+    m = [[rng.choice(vals) for _ in range(nc)] for _ in range(nr)]
+    for i in range(nr):
+        r = rng.random()
+        if r < 0.3:
+            m[i] = [0] * nc                                  # all-zero row
+        elif r < 0.45 and i + 1 < nr:
+            for j in range(nc):                              # row i completely overridden by row i+1
+                if m[i][j] != 0 and m[i + 1][j] == 0:
+                    m[i + 1][j] = rng.choice([v for v in vals if v != 0])
+    return m
+
+
 def run(ctx):
     rng = ctx.rng
-    n = (400 if ctx.quick else 6000) * (3 if ctx.search else 1)
+    if not ctx.quick and not ctx.search:
+        # exhaustive small scope: every 3x3 array over {-1,0,1,2} (shadow, axis 0) and every 2x3 array over {-2..2} x all methods
+        import itertools
+        for cells in itertools.product([-1, 0, 1, 2], repeat=9):
+            do_case(ctx, {"dim": 2, "method": "shadow", "axis": 0, "m": [list(cells[0:3]), list(cells[3:6]), list(cells[6:9])]})
+        for cells in itertools.product([-2, -1, 0, 1, 2], repeat=6):
+            for method in METHODS:
+                do_case(ctx, {"dim": 2, "method": method, "axis": 0, "m": [list(cells[0:3]), list(cells[3:6])]})
+        ctx.notes.append("exhaustive: all 3x3 arrays over {-1,0,1,2} (shadow, axis 0); all 2x3 arrays over {-2..2} x 7 methods")
+    n = (2000 if ctx.quick else 20000) * (3 if ctx.search else 1)
     for _ in range(n):
         r = rng.random()
         method = rng.choice(METHODS)
-        if r < 0.15:
+        if r < 0.1:
             runs = []
             for _ in range(rng.randint(1, 8)):
                 v = rng.choice([1, -1, 2, -2, 3, -3, 7, -9])
                 if runs and runs[-1] == v: continue
                 runs += [v] * rng.randint(1, 3)
             do_case(ctx, {"xs": runs})
-        elif r < 0.3:
+        elif r < 0.4:
+            m = sparse_matrix(rng)
+            axis = rng.choice([0, 0, 1])
+            if axis == 1:
+                m = [list(c) for c in zip(*m)]
+            do_case(ctx, {"dim": 2, "method": rng.choice(["shadow", "shadow", "prio", "rank", method]), "axis": axis, "m": m})
+        elif r < 0.5:
             do_case(ctx, {"dim": 1, "method": method, "m": [rng.choice(VALS) for _ in range(rng.randint(1, 6))]})
         elif r < 0.8:
             nr, nc = rng.randint(1, 4), rng.randint(1, 6)
